@@ -1322,18 +1322,15 @@ class TexArgs(list):
         """
         arg = self.__coerce(arg)
 
+        # resolve the index the way list.insert does, and find the matching
+        # place in `.all`, before anything is modified
+        n = len(self)
+        i = max(n + i, 0) if i < 0 else min(i, n)
+        j = self.all.index(self[i]) if i < n else len(self.all)
+
         if isinstance(arg, (TexGroup, TexCmd)):
             super().insert(i, arg)
-
-        if len(self) <= 1:
-            self.all.append(arg)
-        else:
-            if i > len(self):
-                i = len(self) - 1
-
-            before = self[i - 1]
-            index_before = self.all.index(before)
-            self.all.insert(index_before + 1, arg)
+        self.all.insert(j, arg)
 
     def remove(self, item):
         """Remove either an unparsed argument string or an argument object.
